@@ -130,6 +130,85 @@ end Pelite.PtrT
 namespace Pelite.PtrT
 open Pelite Pelite.Pe Pelite.Spec
 
+/-- the exact success condition of the VA path on a mapped view -/
+theorem readSection_ok_iff (img : Img) (imageBase soi va min align : Nat) (ref : Ref) :
+    readSection img imageBase soi va min align = .ok ref ↔
+      va ≠ 0 ∧ imageBase ≤ va ∧ va - imageBase ≤ soi ∧ isPow2 align = true ∧ (img.base + (va - imageBase)) % align = 0 ∧
+      va - imageBase ≤ img.bytes.size ∧ min ≤ img.bytes.size - (va - imageBase) ∧
+      ref = ⟨va - imageBase, img.bytes.size - (va - imageBase), align⟩ := by
+  rw [readSection_eq]
+  by_cases h0 : va = 0
+  · simp [h0]
+  · rw [if_neg h0]
+    by_cases hb : va < imageBase ∨ va - imageBase > soi
+    · rw [if_pos hb]
+      constructor
+      · intro h; cases h
+      · intro h; omega
+    · rw [if_neg hb]
+      by_cases hp : isPow2 align = true
+      · rw [if_pos hp]
+        by_cases ha : (img.base + (va - imageBase)) % align = 0
+        · rw [if_pos ha]
+          by_cases hc : va - imageBase ≤ img.bytes.size ∧ img.bytes.size - (va - imageBase) ≥ min
+          · rw [if_pos hc]
+            constructor
+            · intro h; cases h; exact ⟨h0, by omega, by omega, hp, ha, hc.1, hc.2, rfl⟩
+            · intro h; rw [h.2.2.2.2.2.2.2]
+          · rw [if_neg hc]
+            constructor
+            · intro h; cases h
+            · intro h; exact absurd ⟨h.2.2.2.2.2.1, h.2.2.2.2.2.2.1⟩ hc
+        · rw [if_neg ha]
+          constructor
+          · intro h; cases h
+          · intro h; exact absurd h.2.2.2.2.1 ha
+      · rw [if_neg hp]
+        constructor
+        · intro h; cases h
+        · intro h; exact absurd h.2.2.2.1 hp
+
+/-- **A mapped view, VA path** (`deref_slice(p, len)` and `deref(p.at(i))`, the form in which TLS callbacks, vtables
+and load-config tables are walked): element `i` of a readable array is the read at `Ptr::at(i)`, provided the
+element still lies within SizeOfImage (`hsoi`: the VA path tests the address against the DECLARED image size, the
+array read tests only its first byte against it; a buffer longer than SizeOfImage is where they differ). -/
+theorem C05_deref_element_view (v : View) (hk : v.kind = .view) (w x size align len i : Nat) (ref : Ref)
+    (hw : w = 32 ∨ w = 64)
+    (h : v.dervaSlice (.va x) size align len = .ok ref) (hi : i < len) (hal : size % align = 0)
+    (hsoi : x - v.imageBase + i * size ≤ sizeOfImage v.b)
+    (p : Nat) (hp : elemAt w x size i = .ok p) (hsz : v.img.bytes.size < 2 ^ 32) :
+    p = x + i * size ∧ v.derva (.va p) size align = .ok ⟨ref.off + i * size, size, align⟩ := by
+  obtain ⟨_, s, hs, rfl⟩ := (C05_derva_slice v _ _ _ _ _).1 h
+  have hs' : readSection v.img v.imageBase (sizeOfImage v.b) x (size * len) align = .ok s := by
+    have : v.at (.va x) (size * len) align = v.read x (size * len) align := rfl
+    rw [this] at hs; unfold View.read at hs; rw [hk] at hs; exact hs
+  obtain ⟨h0, hB, hS, hp2, ha, hle, hn, rfl⟩ := (readSection_ok_iff _ _ _ _ _ _ _).1 hs'
+  have hlt : i * size + size ≤ size * len := by
+    have : (i + 1) * size ≤ len * size := Nat.mul_le_mul_right size (by omega)
+    rw [Nat.mul_comm size len]; rw [Nat.add_mul] at this; omega
+  have hdiv : (i * size) % align = 0 := by rw [Nat.mul_mod, hal]; simp
+  have hsmall : i * size < 2 ^ 32 := by omega
+  have hpe : p = x + i * size := by
+    unfold elemAt at hp
+    have h64 : i * size < 2 ^ 64 := by omega
+    have hm : (i * size) % 2 ^ w = i * size := Nat.mod_eq_of_lt (by rcases hw with rfl | rfl <;> omega)
+    simp only [h64, if_true, hm] at hp
+    split at hp
+    · cases hp; rfl
+    · cases hp
+  refine ⟨hpe, ?_⟩
+  subst hpe
+  apply (C05_derva v _ _ _ _).2
+  refine ⟨⟨x - v.imageBase + i * size, v.img.bytes.size - (x - v.imageBase + i * size), align⟩, ?_, rfl⟩
+  show v.read (x + i * size) size align = _
+  unfold View.read; rw [hk]
+  apply (readSection_ok_iff _ _ _ _ _ _ _).2
+  generalize i * size = d at *
+  generalize size * len = m at *
+  have e1 : x + d - v.imageBase = x - v.imageBase + d := by omega
+  refine ⟨by omega, by omega, by omega, hp2, ?_, by omega, by omega, by rw [e1]⟩
+  rw [e1, ← Nat.add_assoc, Nat.add_mod, ha, hdiv]; simp
+
 /-- **A file view**: the same statement holds when element `i` is resolved by the SAME section as the array's first
 byte (`hsame`; true for every section table whose virtual extents do not overlap).  With overlapping extents the
 section lookup of `slice` is first-match per address, and the element can come from other bytes than the array
